@@ -22,61 +22,85 @@ type case = {
   name_of : (string, int) Hashtbl.t; id_of : (int, n) Hashtbl.t;
 }
 
+let alt_groups (mix : string) (groups : string list list) : string list list option =
+  let kind g = match g with k :: _ -> k | [] -> "" in
+  match mix with
+  | "C07" -> Some (List.filter (fun g -> kind g <> "b" && kind g <> "X") groups)
+  | "C08" -> Some (List.filter (fun g -> kind g <> "R") groups)
+  | "C09" ->
+    let rec split pre = function
+      | [] -> None
+      | g :: r when kind g = "ALTFROM" -> Some (List.rev pre, g, r)
+      | g :: r -> split (g :: pre) r in
+    (match split [] groups with
+     | None -> None
+     | Some (pre, m, post) ->
+       Some (List.filter (fun g -> kind g = "E") pre @ [("RESET" :: List.tl m)] @ post))
+  | _ -> None
+
 let parse (inp : string list) : case =
   let groups = split_on ";" inp in
   let hdr = List.hd groups in
   let mix, fccap, epoch0 = (match hdr with
     | [m; fc; _; _; e] -> m, nat_of_tok fc, nz e
     | _ -> "?", nat_of_int 200, nz "1") in
-  let defs : (int, aevent) Hashtbl.t = Hashtbl.create 64 in
   let name_of = Hashtbl.create 64 and id_of = Hashtbl.create 64 in
   let vals0 = ref [] and pol = ref [] in
-  let main = ref [] and alt = ref None in
-  let mtoks = ref [] and atoks = ref [] in
-  let push g e = (match !alt with
-    | None -> main := e :: !main; mtoks := g :: !mtoks
-    | Some l -> alt := Some (e :: l); atoks := g :: !atoks) in
-  let mk_ev n ep cr seq lam fr (ps : int list) : aevent option =
-    if List.for_all (fun p -> Hashtbl.mem defs p) ps then
-      Some { a_id = (if n >= 0 then mk_id ep lam (tail_of n) else N0); a_epoch = ep; a_creator = cr; a_seq = seq;
-             a_lamport = lam; a_frame = fr; a_parents = List.map (fun p -> Hashtbl.find id_of p) ps }
-    else None in
-  List.iter (fun g ->
-    match g with
-    | [] -> ()
-    | "V" :: r -> vals0 := pairs r
-    | "S" :: ep :: blk :: r -> pol := ((nz ep, nz blk), pairs r) :: !pol
-    | "E" :: n :: ep :: cr :: seq :: lam :: fr :: ps ->
-      let n = int_of_string n in
-      if not (Hashtbl.mem defs n) then
-        (match mk_ev n (nz ep) (nz cr) (nz seq) (nz lam) (nz fr) (List.map int_of_string ps) with
-         | Some e -> Hashtbl.add defs n e; Hashtbl.add id_of n e.a_id;
-                     Hashtbl.add name_of (Z.to_string (z_of_n e.a_id)) n
-         | None -> ())
-    | ["ALT"] -> alt := Some []
-    | ("P" | "X") as k :: n :: r ->
-      (match Hashtbl.find_opt defs (int_of_string n) with
-       | None -> push g Nodef
-       | Some e ->
-         let e = (match k, r with
-           | "X", f :: _ -> { e with a_frame = nz f }
-           | _ -> e) in
-         push g (Mop (k, OpP e)))
-    | ("B" | "b") as k :: ep :: cr :: seq :: lam :: ps ->
-      (match mk_ev (-1) (nz ep) (nz cr) (nz seq) (nz lam) N0 (List.map int_of_string ps) with
-       | Some e -> push g (Mop (k, OpB e))
-       | None -> push g Nodef)
-    | ["R"] -> push g (Mop ("R", OpR))
-    | "RESET" :: ep :: r -> push g (Mop ("RESET", OpReset (nz ep, pairs r)))
-    | ["M"; n] ->
-      (match Hashtbl.find_opt id_of (int_of_string n) with
-       | Some id -> push g (Mop ("M", OpM id))
-       | None -> push g Nodef)
-    | ["G"; f] -> push g (Mop ("G", OpG (nz f)))
-    | _ -> push g Nodef) (List.tl groups);
-  { mix; fccap; epoch0; vals0 = !vals0; pol = List.rev !pol;
-    main = List.rev !main; alt = (match !alt with None -> None | Some l -> Some (List.rev l));
-    main_toks = List.rev !mtoks; alt_toks = List.rev !atoks; name_of; id_of }
+  let body = List.filter (fun g -> match g with
+    | [] -> false
+    | "V" :: r -> vals0 := pairs r; false
+    | "S" :: ep :: blk :: r -> pol := ((nz ep, nz blk), pairs r) :: !pol; false
+    | "S" :: _ -> false
+    | _ -> true) (List.tl groups) in
+  let elems_of (gs : string list list) : elem list * string list list =
+    let defs : (int, aevent) Hashtbl.t = Hashtbl.create 64 in
+    let lid : (int, n) Hashtbl.t = Hashtbl.create 64 in
+    let els = ref [] and toks = ref [] in
+    let push g e = els := e :: !els; toks := g :: !toks in
+    let mk_ev n ep cr seq lam fr (ps : int list) : aevent option =
+      if List.for_all (fun p -> Hashtbl.mem defs p) ps then
+        Some { a_id = (if n >= 0 then mk_id ep lam (tail_of n) else N0); a_epoch = ep; a_creator = cr; a_seq = seq;
+               a_lamport = lam; a_frame = fr; a_parents = List.map (fun p -> Hashtbl.find lid p) ps }
+      else None in
+    List.iter (fun g ->
+      match g with
+      | [] -> ()
+      | "E" :: n :: ep :: cr :: seq :: lam :: fr :: ps ->
+        let n = int_of_string n in
+        if not (Hashtbl.mem defs n) then
+          (match mk_ev n (nz ep) (nz cr) (nz seq) (nz lam) (nz fr) (List.map int_of_string ps) with
+           | Some e -> Hashtbl.add defs n e; Hashtbl.add lid n e.a_id;
+                       Hashtbl.replace id_of n e.a_id;
+                       Hashtbl.replace name_of (Z.to_string (z_of_n e.a_id)) n
+           | None -> ())
+      | "E" :: _ -> ()
+      | "ALTFROM" :: _ -> ()
+      | ("P" | "X") as k :: n :: r ->
+        (match Hashtbl.find_opt defs (int_of_string n) with
+         | None -> push g Nodef
+         | Some e ->
+           let e = (match k, r with
+             | "X", f :: _ -> { e with a_frame = nz f }
+             | _ -> e) in
+           push g (Mop (k, OpP e)))
+      | ("B" | "b") as k :: ep :: cr :: seq :: lam :: ps ->
+        (match mk_ev (-1) (nz ep) (nz cr) (nz seq) (nz lam) N0 (List.map int_of_string ps) with
+         | Some e -> push g (Mop (k, OpB e))
+         | None -> push g Nodef)
+      | ["R"] -> push g (Mop ("R", OpR))
+      | "RESET" :: ep :: r -> push g (Mop ("RESET", OpReset (nz ep, pairs r)))
+      | ["M"; n] ->
+        (match Hashtbl.find_opt lid (int_of_string n) with
+         | Some id -> push g (Mop ("M", OpM id))
+         | None -> push g Nodef)
+      | ["G"; f] -> push g (Mop ("G", OpG (nz f)))
+      | _ -> push g Nodef) gs;
+    (List.rev !els, List.rev !toks) in
+  let main, main_toks = elems_of body in
+  let alt, alt_toks = (match alt_groups mix body with
+    | Some ag -> let a, t = elems_of ag in (Some a, t)
+    | None -> (None, [])) in
+  { mix; fccap; epoch0; vals0 = !vals0; pol = List.rev !pol; main; alt; main_toks; alt_toks; name_of; id_of }
 
 (* ---------- printing model observations ---------- *)
 let err_tok = function
@@ -212,10 +236,22 @@ let spec_on (pid : string) c (mg : string list list) (ag : string list list) : s
   let pa = match c.alt with Some a -> pair_trace a ag | None -> [] in
   let has_block = List.exists (fun (_, _, g) -> List.exists (fun t -> String.length t > 1 && t.[0] = 'A') g) in
   let groups_of = List.map (fun (_, _, g) -> g) in
+  let rec take n l = if n <= 0 then [] else match l with [] -> [] | x :: t -> x :: take (n - 1) t in
   let chk tr_fn p =
     match trace_of c p with
-    | None -> false
-    | Some tr -> tr_fn (chk_start c.epoch0 c.vals0) tr in
+    | None -> (if Sys.getenv_opt "VERIF_DEBUG" <> None then prerr_endline "trace does not parse"); false
+    | Some tr ->
+      let ok = tr_fn (chk_start c.epoch0 c.vals0) tr in
+      (if not ok && Sys.getenv_opt "VERIF_DEBUG" <> None then begin
+         (* first failing prefix; report the op index among parsed ops *)
+         let n = List.length tr in
+         let rec find k = if k > n then n else if tr_fn (chk_start c.epoch0 c.vals0) (take k tr) then find (k + 1) else k in
+         let k = find 1 in
+         let real = List.filter (fun (_, o, _) -> o <> None) p in
+         let (kind, _, g) = List.nth real (k - 1) in
+         Printf.eprintf "spec fails first at parsed op #%d kind=%s obs=[%s]\n" (k - 1) kind (String.concat " " g)
+       end);
+      ok in
   match pid with
   | "C02" -> { ok = chk c02_trace pm; nontriv = has_block pm; why = "c02_trace" }
   | "C03" ->
@@ -229,23 +265,21 @@ let spec_on (pid : string) c (mg : string list list) (ag : string list list) : s
   | "C07" ->
     let kept = List.filter (fun (k, _, _) -> k <> "b" && k <> "X") pm in
     let inj = List.length pm - List.length kept in
-    { ok = (groups_of kept = groups_of pa) && List.length pa = (match c.alt with Some a -> List.length a | None -> 0);
+    { ok = (c.alt = None) || (groups_of kept = groups_of pa);
       nontriv = inj > 0 && (has_block pm || List.exists (fun (k, _, _) -> k = "B") pm);
       why = "main without injected ops vs clean run" }
   | "C08" ->
     let kept = List.filter (fun (k, _, _) -> k <> "R") pm in
     let rs = List.filter (fun (k, _, _) -> k = "R") pm in
     let r_ok = List.for_all (fun (_, _, g) -> match g with ["rok"; _; _] -> true | _ -> false) rs in
-    { ok = r_ok && (groups_of kept = groups_of pa) && chk c02_trace pm;
+    { ok = r_ok && (c.alt = None || groups_of kept = groups_of pa) && chk c02_trace pm;
       nontriv = rs <> [] && has_block pm;
       why = "restarted vs never restarted" }
   | "C09" ->
+    (* the reference instance = RESET + the ops after the ALTFROM marker (alt_toks = RESET :: suffix of main_toks) *)
     let mt = c.main_toks and at = c.alt_toks in
-    let k, skip_alt =
-      if is_suffix at mt then (List.length mt - List.length at, 0)
-      else (match at with _ :: at' when is_suffix at' mt -> (List.length mt - List.length at', 1) | _ -> (-1, 0)) in
-    let cmp = if k < 0 then (c.alt = None || at = []) else
-        (drop k (groups_of pm) = drop skip_alt (groups_of pa)) in
+    let k = (match at with _ :: at' -> List.length mt - List.length at' | [] -> -1) in
+    let cmp = if c.alt = None || k < 0 then true else (drop k (groups_of pm) = drop 1 (groups_of pa)) in
     { ok = cmp && chk c02_trace pm;
       nontriv = List.exists (fun (_, _, g) -> List.exists (fun t -> String.length t > 1 && t.[0] = 'S') g) pm && has_block (drop k pm);
       why = "sealed vs Reset instance" }
@@ -261,6 +295,8 @@ let join_groups gs = String.concat " ; " (List.map (String.concat " ") gs)
 
 let eval_with (pid : string) (smp : n -> n list option) inp obs : verdict =
   let c = parse inp in
+  if mk_vals c.vals0 = [] then   (* no genesis validators: not a scenario (only met while shrinking) *)
+    { default_verdict with model_obs = ["invalid"]; spec_ok = None; nontrivial = false } else
   let mm = model_run c smp c.main in
   let ma = match c.alt with Some a -> model_run c smp a | None -> [] in
   let flat gs = List.concat (List.mapi (fun i g -> if i = 0 then g else ";" :: g) gs) in
